@@ -121,6 +121,10 @@ def run(rep, tier):
     c18.r1_r4(prog, pr)
     c18.r2(prog, pr)
     c18.r5(prog, pr)  # fpolprime == d fpol/d psi for every equilibrium class (enters dBzetadR/dZ)
+    # the curvature is recomputed from the current point positions on every call of the geometry
+    # phases (rule instances of C02.R9: no store guarded by a test of its own existence)
+    from . import c02
+    c02.memo_rule(prog, Premise(rep, "R0", "C02"))
     # the x-y formulation differentiates with DDX/DDY: they must be centred difference stencils
     # that reach into the right neighbour cells (rule instances of C06.R5)
     from . import c06
